@@ -157,7 +157,6 @@ impl Column {
         let key = self.base_block_key.clone().block(block_id);
 
         let mut block_header = BlockMeta::default();
-        let mut do_verify_checksum = false;
 
         // support multiple I/O backend
         let block =
@@ -190,9 +189,22 @@ impl Column {
                     // TODO(chi): we should invalidate cache item after a RowSet has been compacted.
                     // self.block_cache.insert(key, block.clone()).await;
 
-                    // need to verify checksum when read from disk
-                    do_verify_checksum = true;
-                    block
+                    // Verify the checksum of a block read from disk *before* it enters the
+                    // cache: a block that fails verification must not be served to later reads.
+                    let block = block?;
+                    if block.len() < BLOCK_META_SIZE {
+                        return Err(TracedStorageError::decode(
+                            "block is smaller than header size",
+                        ));
+                    }
+                    let mut header = BlockMeta::default();
+                    header.decode(&mut &block[block.len() - BLOCK_META_SIZE..])?;
+                    verify_checksum(
+                        header.checksum_type,
+                        &block[..block.len() - BLOCK_META_CHECKSUM_SIZE],
+                        header.checksum,
+                    )?;
+                    Ok(block)
                 })
                 .await?;
 
@@ -203,14 +215,6 @@ impl Column {
         }
         let mut header = &block[block.len() - BLOCK_META_SIZE..];
         block_header.decode(&mut header)?;
-
-        if do_verify_checksum {
-            verify_checksum(
-                block_header.checksum_type,
-                &block[..block.len() - BLOCK_META_CHECKSUM_SIZE],
-                block_header.checksum,
-            )?;
-        }
 
         Ok((block_header, block.slice(..block.len() - BLOCK_META_SIZE)))
     }
